@@ -26,7 +26,9 @@ LEVEL_TEXT = ("Generated DCOPs with 1-4 variables and 0-4 constraints give compu
               "(command: status FAIL / TIMEOUT), or a mapping hosting every computation exactly once on declared "
               "agents, honouring every must_host hint, and - for every method but oneagent - keeping the sum of "
               "footprints on each agent within its capacity (recomputed from the case tables). Any other exception "
-              "or exit status is a violation. Completeness (finding a mapping whenever one exists) is not required. "
+              "or exit status is a violation. Completeness (finding a mapping whenever one exists) is not required. Capacities include 0, ample, "
+              "tight, and footprint-relative ones (exactly what a generated packing needs, or what the computations pinned "
+              "on the agent by a zero hosting cost need, plus a slack of 0-2). "
               "Sampling, not proof.")
 LEVEL_NOTE = ("Trusted: the validity predicate in this file; CBC (bundled with PuLP) substituted for the absent glpsol "
               "binary from the harness (module.GLPK_CMD replaced; model, objective and constraints untouched). The "
